@@ -7,6 +7,7 @@ PENDING = "not yet claimed: machinery under construction in this session (planne
 ENGINES = {
  "store": ("harness/src/store.rs + vlib/storeeng.py", "correspondence + oracle engine over the storage traits on both backends"),
  "memlru": ("harness/src/store.rs (backend lru <cache_size> <max_messages_per_group>) + vlib/lrueng.py + lean/Driver/MemLruDrv.lean + lean/MdkVerif/Model/MemLru.lean", "second engine of C10 and C18: the memory backend built with small LRU capacities, op histories over key pools larger than the capacities, replayed on Model.MemLru with candidate states for HashMap-order choices; capacity / LRU-exactness / cap-victim / index oracles and within-capacity equality with SQLite"),
+ "limits": ("harness/src/store.rs (ops measure / z= / e=) + vlib/limitseng.py + lean/Driver/StoreLimDrv.lean + lean/MdkVerif/Model/StoreLimits.lean", "second engine of C06 (hostile store stream) and third run of C10 (boundary stream): store ops with values at and beyond both backends' documented limits, serialized sizes measured by the harness, replayed on the limit-aware model (validation tables regenerated from both backends); no-effect-on-refusal and per-backend documented-limit oracles"),
  "mgr": ("harness/src/mgr.rs + vlib/mgreng.py", "drives the real EpochSnapshotManager over both backends"),
  "leak": ("harness/src/leak.rs + vlib/leakeng.py + tools/gen_leak.py", "tracing capture + Display/Debug rendering of returned values under canary scenarios, mapped onto regenerated Lean tables"),
  "atrest": ("harness/src/atrest.rs + vlib/atresteng.py + lean/Driver/AtrestDrv.lean", "constructor x file-state x keyring-state matrix against a mock keyring-core store, concurrent first opens, canary byte scan, mode bits"),
